@@ -147,7 +147,7 @@ type c08Case struct {
 	Data  drv.Hex `json:"data"`
 	Times int     `json:"times,omitempty"` // deliver this many times (the ICMPv6 handler processes one RA in four)
 	Dec   string  `json:"decoder,omitempty"`
-	Log   int     `json:"log,omitempty"` // level of the package loggers while the frame is processed: 0 info, 1 error, 2 debug
+	Log   int     `json:"log,omitempty"`  // level of the package loggers while the frame is processed: 0 info, 1 error, 2 debug
 	Aged  bool    `json:"aged,omitempty"` // the frame comes twice, five minutes apart (the handler's mDNS response cache has expired: dns_naming.VerifExpireMDNSCache)
 }
 
